@@ -522,7 +522,18 @@ func (g *G) TypedOp(kind string, s Schema, env *TEnv, joinDepth int) (Op, Schema
 			return nil, s, false
 		}
 		for len(conds) < 3 && g.n("extracond", 3) == 0 {
-			switch g.n("extrakind", 5) {
+			switch g.n("extrakind", 7) {
+			case 5:
+				// a constant as a whole condition: AND-ed like any other
+				conds = append(conds, ID(pickFrom(g, "constcond", []string{"true", "true", "false", "null"})))
+			case 6:
+				// a parenthesised boolean binding as a whole condition (a bare
+				// name would be the `on key` shorthand)
+				if b, ok := g.bindingOf(env, TBool, "join"); ok {
+					conds = append(conds, &Paren{X: b})
+				} else {
+					conds = append(conds, &Paren{X: ID("true")})
+				}
 			case 4:
 				// a comparison across the sides below `not`: there NULL and
 				// false are not the same thing
